@@ -57,12 +57,13 @@ func NewGroupRouter(ctx context.Context, client *clientv3.Client, logger *slog.L
 		routes: make(map[string]string),
 	}
 
-	if err := r.loadAll(ctx); err != nil {
+	rev, err := r.loadAll(ctx)
+	if err != nil {
 		cancel()
 		return nil, fmt.Errorf("load initial group routes: %w", err)
 	}
 
-	go r.watch(watchCtx)
+	go r.watch(watchCtx, rev)
 	return r, nil
 }
 
@@ -102,10 +103,12 @@ func (r *GroupRouter) Stop() {
 	r.cancel()
 }
 
-func (r *GroupRouter) loadAll(ctx context.Context) error {
+// loadAll replaces the routing table with a full read and returns the etcd
+// revision that read reflects, so the watch can resume right after it.
+func (r *GroupRouter) loadAll(ctx context.Context) (int64, error) {
 	resp, err := r.client.Get(ctx, groupLeasePrefix+"/", clientv3.WithPrefix())
 	if err != nil {
-		return err
+		return 0, err
 	}
 	fresh := make(map[string]string, len(resp.Kvs))
 	for _, kv := range resp.Kvs {
@@ -119,12 +122,15 @@ func (r *GroupRouter) loadAll(ctx context.Context) error {
 	r.routes = fresh
 	r.mu.Unlock()
 	r.logger.Info("loaded group routes from etcd", "count", len(fresh))
-	return nil
+	return resp.Header.Revision, nil
 }
 
-func (r *GroupRouter) watch(ctx context.Context) {
+// watch applies lease events starting right after revision rev (the revision
+// the routing table already reflects), so no change between the full read and
+// the establishment of the watch stream is lost.
+func (r *GroupRouter) watch(ctx context.Context, rev int64) {
 	for {
-		watchChan := r.client.Watch(ctx, groupLeasePrefix+"/", clientv3.WithPrefix(), clientv3.WithPrevKV())
+		watchChan := r.client.Watch(ctx, groupLeasePrefix+"/", clientv3.WithPrefix(), clientv3.WithPrevKV(), clientv3.WithRev(rev+1))
 		for resp := range watchChan {
 			if resp.Err() != nil {
 				r.logger.Warn("group lease watch error", "error", resp.Err())
@@ -148,6 +154,9 @@ func (r *GroupRouter) watch(ctx context.Context) {
 				}
 			}
 			r.mu.Unlock()
+			if resp.Header.Revision > rev {
+				rev = resp.Header.Revision
+			}
 		}
 
 		if ctx.Err() != nil {
@@ -156,8 +165,10 @@ func (r *GroupRouter) watch(ctx context.Context) {
 
 		r.logger.Warn("group lease watch stream closed, reconnecting")
 		time.Sleep(time.Second)
-		if err := r.loadAll(ctx); err != nil {
+		if newRev, err := r.loadAll(ctx); err != nil {
 			r.logger.Warn("group lease watch reconnect: reload failed", "error", err)
+		} else {
+			rev = newRev
 		}
 	}
 }
